@@ -97,11 +97,12 @@ pub fn minimise_case(case: &Case, fails: &mut dyn FnMut(&Case) -> bool, budget: 
                 best = c;
             }
         }
-        for tweak in 0..3 {
+        for tweak in 0..4 {
             let mut c = best.clone();
             match tweak {
                 0 => c.plan.stall_permille = 0,
                 1 => c.plan.shortread = 0,
+                2 => c.plan.stderr_errno = 0,
                 _ => c.plan.dirseed = 0,
             }
             if c != best && fails(&c) {
